@@ -49,6 +49,8 @@ enum MOp {
     RegisterUncheckedRefused { stop: bool },
     IterNew { sigs: Vec<i32>, exf: u8 },
     IterAdd { sig: i32 },
+    /// add_signal of a forbidden signal through the instance's handle: documented, caught panic
+    IterAddForbidden,
     IterDrop,
 }
 
@@ -452,7 +454,9 @@ fn gen_scenario(spec: &RunSpec) -> (Vec<Vec<MOp>>, Vec<Vec<i32>>, Config) {
             let ss: Vec<i32> = (0..n).map(|_| sigs[sim::work(nsig as u32) as usize]).collect();
             MOp::IterNew { sigs: ss, exf: sim::work(3) as u8 }
         } else if have_iter[t] {
-            if sim::work(2) == 0 {
+            if prop == "C18" && sim::work(3) == 0 {
+                MOp::IterAddForbidden
+            } else if sim::work(2) == 0 {
                 MOp::IterAdd { sig: sigs[sim::work(nsig as u32) as usize] }
             } else {
                 have_iter[t] = false;
@@ -876,6 +880,23 @@ fn exec_mop(op: &MOp, iter: &mut Option<IterBox>) {
                 }
             }
         }
+        MOp::IterAddForbidden => {
+            if let Some(b) = iter.as_ref() {
+                op_enter();
+                let r = catch_unwind(AssertUnwindSafe(|| match &b.k {
+                    IterKind::Only(d) => d.handle().add_signal(libc::SIGKILL),
+                    IterKind::Raw(d) => d.handle().add_signal(libc::SIGKILL),
+                    IterKind::Origin(d) => d.handle().add_signal(libc::SIGKILL),
+                }));
+                let _g = ShimGuard::new();
+                op_leave();
+                if r.is_err() {
+                    sim::count(E_MUT_PANIC, 1);
+                } else {
+                    sim::report("C14", "forbidden-accepted", "add_signal(SIGKILL) through an iterator handle did not panic", false);
+                }
+            }
+        }
         MOp::IterDrop => {
             if let Some(b) = iter.take() {
                 op_enter();
@@ -1018,6 +1039,9 @@ pub fn run(spec: &RunSpec) -> ! {
     }
     if (spec.prop.id == "C01" || spec.prop.id == "C02") && spec.run % 4096 == 1027 {
         long_stall_run(spec);
+    }
+    if spec.prop.id == "C03" && spec.run >= spec.prop.sweep_runs && spec.run % 16 == 5 {
+        cond_default_run(spec);
     }
     let (muts, dels, cfg) = gen_scenario(spec);
     sim::note(&describe(&muts, &dels, &cfg));
@@ -1340,5 +1364,83 @@ fn long_stall_run(spec: &RunSpec) -> ! {
     sim::set_step_hook(Box::new(|| {}));
     final_checks(spec);
     sim::mark_nontrivial();
+    sim::finish_ok()
+}
+
+/// C03, the "conditional default" built-in: two terminating signals with an armed
+/// `register_conditional_default`, delivered on one or two threads, the second one also nested
+/// inside the first at its system calls (`sigprocmask`, `raise` are scheduling points).  On a
+/// correct tree the process is killed by one of the two signals the moment the first emulation
+/// re-raises; a delivery that waits for the other one instead never returns.
+fn cond_default_run(spec: &RunSpec) -> ! {
+    let pool = [libc::SIGUSR1, libc::SIGUSR2, libc::SIGHUP, libc::SIGTERM, libc::SIGINT, libc::SIGALRM];
+    let a = pool[sim::work(pool.len() as u32) as usize];
+    let b = loop {
+        let b = pool[sim::work(pool.len() as u32) as usize];
+        if b != a {
+            break b;
+        }
+    };
+    let two_threads = sim::work(2) == 0;
+    let flag_first = sim::work(2) == 0;
+    let inj = [(1u32, 1u32), (1, 2), (1, 4), (0, 1)][sim::work(4) as usize];
+    let policy = match sim::work(4) {
+        0 => Policy::Uniform,
+        1 => Policy::Sticky(10),
+        2 => Policy::Pct(1),
+        _ => Policy::Sticky(50),
+    };
+    sim::note(&format!("armed conditional default on {} and {}; second delivery on another thread: {}; nested injection {}/{}; plain flag registered first: {}; policy {:?}", sig_name(a), sig_name(b), two_threads, inj.0, inj.1, flag_first, policy));
+    let cfg = Config { prop: spec.prop.id.to_string(), policy, inject_num: inj.0, inject_den: inj.1, inject_budget: if inj.0 == 0 { 0 } else { 1 }, max_nest: 2, step_budget: 20_000, ..Config::default() };
+    sim::start(cfg);
+    sim::set_handler_step_limit(600);
+    let armed = Arc::new(AtomicBool::new(true));
+    if flag_first {
+        signal_hook::flag::register(a, Arc::new(AtomicBool::new(false))).expect("flag::register");
+    }
+    signal_hook::flag::register_conditional_default(a, Arc::clone(&armed)).expect("register_conditional_default");
+    signal_hook::flag::register_conditional_default(b, Arc::clone(&armed)).expect("register_conditional_default");
+    {
+        let sh = sighook_shim::shm::get();
+        sh.expect_exit = a | (b << 8);
+        sh.expect_set = 3;
+    }
+    sim::mark_nontrivial();
+    fn deliver_plain(sig: i32) {
+        let mut info = make_info(sig, 1);
+        let ctx_dummy = [0u64; 4];
+        sim::deliver(sig, &mut info as *mut RawInfo as *mut libc::siginfo_t, &ctx_dummy as *const _ as *mut libc::c_void);
+    }
+    // nested: the other signal arrives on the thread that is inside a delivery
+    sim::set_injector(Box::new(move |ctx: &InjectCtx| {
+        if ctx.depth == 0 {
+            return false;
+        }
+        let other = if sim::in_handler_for(a) { b } else { a };
+        if sim::in_handler_for(other) {
+            return false;
+        }
+        deliver_plain(other);
+        true
+    }));
+    let t1 = sim::spawn("deliverer", move || {
+        sim::sp_user();
+        deliver_plain(a);
+    });
+    let t2 = if two_threads {
+        Some(sim::spawn("deliverer", move || {
+            sim::sp_user();
+            deliver_plain(b);
+        }))
+    } else {
+        None
+    };
+    sim::join(t1);
+    if let Some(t) = t2 {
+        sim::join(t);
+    }
+    // still alive: the armed emulation did not terminate the process (not C03's concern)
+    sighook_shim::shm::get().expect_set = 0;
+    sim::report("C16", "armed-default-did-not-terminate", &format!("deliveries of {} and {} with an armed conditional default returned and the process is still running", sig_name(a), sig_name(b)), true);
     sim::finish_ok()
 }
